@@ -138,6 +138,13 @@ def main(argv=None):
     if a.replay:
         return do_replay(pid, a.replay)
     t0 = time.time()
+    try:
+        from vf import selfcheck
+
+        engine_selfcheck = selfcheck.ensure()
+    except Exception as e:  # noqa
+        print(f"HARNESS-ERROR engine selfcheck failed: {e}", file=sys.stderr)
+        return 3
     mod = importlib.import_module(f"props.{pid}")
     obs = mod.obligations(a.tier)
     if a.only:
@@ -225,6 +232,7 @@ def main(argv=None):
                    "errors": [e[-500:] for e in r["errors"]]}
                 for r in results
             ],
+            "engine_selfcheck": engine_selfcheck,
             "solver_time_s": round(sum(r["solver_s"] for r in results), 3),
             "known_findings_printed": sorted(known_hit),
             "fixed_findings": [f.get("what") for f in fixed],
